@@ -4,12 +4,18 @@ import (
 	"errors"
 	"math/rand"
 	"strings"
+	"sync"
 	"time"
 )
 
 const letters = "abcdefghijklmnopqrstuvwxyzABCDEFGHIJKLMNOPQRSTUVWXYZ0123456789_-"
 
-var randSource = rand.New(rand.NewSource(time.Now().UnixNano()))
+// randSource is shared by every caller of RandStringRunes (template functions of all instances);
+// *rand.Rand is not safe for concurrent use, hence the mutex.
+var (
+	randSource   = rand.New(rand.NewSource(time.Now().UnixNano()))
+	randSourceMx sync.Mutex
+)
 
 func ParseStringFunc(shoot string) (string, []string, error) {
 	openIdx := strings.IndexRune(shoot, '(')
@@ -41,8 +47,10 @@ func RandStringRunes(n int64, s string) string {
 	}
 	var letterRunes = []rune(s)
 	b := make([]rune, n)
+	randSourceMx.Lock()
 	for i := range b {
 		b[i] = letterRunes[randSource.Intn(len(letterRunes))]
 	}
+	randSourceMx.Unlock()
 	return string(b)
 }
